@@ -35,6 +35,15 @@ def main() -> int:
     ap.add_argument("--checks", default="", help="comma-separated extra property ids to run as well")
     a = ap.parse_args()
     src = Path(a.src)
+    if (src / "patch.diff").exists():
+        # re-evaluation of a kept seeded change (seeded/<Cxx>-<mN>/ layout): stage it in the mN.* layout
+        stage = Path(f"/tmp/seedstage-{a.prop}-{a.name}-{os.getpid()}")
+        stage.mkdir(parents=True, exist_ok=True)
+        shutil.copy(src / "patch.diff", stage / f"{a.name}.diff")
+        shutil.copy(src / "demo.py", stage / f"{a.name}_demo.py")
+        old = json.loads((src / "meta.json").read_text()) if (src / "meta.json").exists() else {}
+        (stage / f"{a.name}.json").write_text(json.dumps({k: v for k, v in old.items() if k not in ("what_i_ran", "breaks")}))
+        src = stage
     wt = Path(f"/tmp/seedeval-{a.prop}-{a.name}-{os.getpid()}")
     verdict: dict = {"property": a.prop, "name": a.name}
     sh(["git", "-C", "/repo", "worktree", "add", "-f", str(wt), "HEAD"])
@@ -93,6 +102,7 @@ def main() -> int:
         sh(["git", "-C", "/repo", "worktree", "remove", "--force", str(wt)])
         shutil.rmtree(wt, ignore_errors=True)
         shutil.rmtree(f"/tmp/seedeval-evidence-{os.getpid()}", ignore_errors=True)
+        shutil.rmtree(f"/tmp/seedstage-{a.prop}-{a.name}-{os.getpid()}", ignore_errors=True)
         # the run above regenerated lean/OPM/Gen/*.lean from the scratch tree: put the tables of /repo back
         env0 = {k: v for k, v in os.environ.items() if k != "PYTHONPATH"}
         sh([PY, "-m", "vp.setup", "--tables-only"], cwd=ROOT, env=env0, timeout=600)
